@@ -6,6 +6,7 @@
 import OrasModel.Model.Pack
 import OrasModel.Proofs.Re
 import OrasModel.Gen.Regex
+import OrasModel.Proofs.ReLen
 namespace Oras.Props.C19
 open Oras
 
@@ -90,5 +91,16 @@ example :
     (pack ⟨.v11, .valid, none, true, false, .malformed, true, false⟩).1 = [.existsConfig, .pushConfig] ∧
     (pack ⟨.v11, .valid, none, true, false, .absent, true, false⟩).1 = [.existsConfig, .pushConfig, .pushManifest] := by
   refine ⟨by rfl, by rfl, by rfl, by rfl, by rfl⟩
+
+/-- **RFC 6838 length rule, about the expression the source compiles**: an accepted media
+    type has a type and a subtype of 1 to 127 characters each, so between 3 and 255
+    characters in all. -/
+theorem c19_mediatype_length (s : List Char) (h : Gen.mediaTypeRe.accepts s = true) :
+    3 ≤ s.length ∧ s.length ≤ 255 := by
+  have h1 := Re.minLen_sound Gen.mediaTypeRe s h
+  have h2 := Re.maxLen_sound Gen.mediaTypeRe 255 (by decide) s h
+  have hm : Re.minLen Gen.mediaTypeRe = 3 := by decide
+  rw [hm] at h1
+  exact ⟨h1, h2⟩
 
 end Oras.Props.C19
